@@ -43,11 +43,11 @@ theorem rle_deserString (cfg : Cfg) (c : Cur) : RLe c (deserString cfg c) := by
   grind
 grind_pattern rle_deserString => deserString cfg c
 
-theorem rle_deserStr (c : Cur) : RLe c (deserStr c) := by
+theorem rle_deserStr (cfg : Cfg) (c : Cur) : RLe c (deserStr cfg c) := by
   simp only [deserStr]
   have hroot : Root c := trivial
   grind
-grind_pattern rle_deserStr => deserStr c
+grind_pattern rle_deserStr => deserStr cfg c
 
 theorem rle_deserAnyScalar (cfg : Cfg) (c : Cur) (v : List Char) (tag : Nat) (st : Style) (l : Loc) :
     RLe c (deserAnyScalar cfg c v tag st l) := by
